@@ -15,7 +15,7 @@ UNVERIFIED = [
     "every other validation rule (FieldsOnCorrectType, ScalarLeafs, PossibleFragmentSpreads, ...) versus the executor",
     "ProvidedRequiredArgumentsRule versus coerce_argument's required-argument raise (planned)",
     "the Sub/Compat => Valid/Conf transfer lemmas (depend on the C15 input-validity theory)",
-    "shape of the response for an accepted document (only: the sub-selection memo that assembles it is keyed by the return type and the field group, MEMO-M1/M2)",
+    "shape of the response for an accepted document (BOUNDED stand-in: props/C02_ref.py over conforming data; deductively only: the sub-selection memo that assembles it is keyed by the return type and the field group, MEMO-M1/M2)",
 ]
 TRUSTED = []
 ASSUMPTIONS = [A["A1"], A["A2"], A["A3"], A["A7"], A["A8"], A["ENGINE"],
@@ -30,6 +30,14 @@ def _memo(world):
 
 def extra_obligations(world, tier, seed):
     return _memo(world) + _lemmas()
+
+
+def bounded_checks(tier, seed):
+    """BOUNDED stand-in for the response shape of an accepted document: every generated document that
+    validate() accepts is executed over conforming data and compared with the reference executor
+    (props/C02_ref.py); any error, exception or deviation is reported."""
+    from .C02 import bounded_checks as b
+    return b(tier, seed, pid="C13", variants="(0,)")
 
 
 def _lemmas():
